@@ -2,16 +2,20 @@
 import os
 import sys
 sys.path.insert(0, os.path.join(os.path.dirname(os.path.abspath(__file__)), '..', '..', 'tools'))
-from prover import Proof  # noqa: E402
+from prover import Proof, REPO  # noqa: E402
+import re
 
 IMPL, SPEC = 'contracts/C16/opt.impl.cpp', 'contracts/C16/opt.spec.c'
+# parameter type of validate() as declared in the working tree (the class shells of env/option_stub.h follow it)
+_mo = re.search(r'virtual bool validate\((\w+(?: \w+)?)\)', open(os.path.join(REPO, 'src/option.h')).read())
+VALIDATE_ARG_T = _mo.group(1) if _mo else 'long'
 
 
 def _validate_rules(T, cls):
     why = 'textual instantiation of the class template member onto the shell %s (env/option_stub.h)' % cls
     return {
-        'validate_base_%s' % T: [('D8', [(r'virtual bool validate\(long\)', 'bool %s::validate_base(long)' % cls, why)])],
-        'validate_bounded_%s' % T: [('D8', [(r'protected:\n\s*bool validate\(long val\) override', 'bool %s::validate_bounded(long val)' % cls, why),
+        'validate_base_%s' % T: [('D8', [(r'virtual bool validate\((\w+(?: \w+)?)\)', r'bool %s::validate_base(\1)' % cls, why)])],
+        'validate_bounded_%s' % T: [('D8', [(r'protected:\n\s*bool validate\((\w+(?: \w+)?) val\) override', r'bool %s::validate_bounded(\1 val)' % cls, why),
                                             (r'static_cast<long>\(min\)', 'static_cast<long>(m_lo)', 'template argument min -> data member m_lo (any value)'),
                                             (r'static_cast<long>\(max\)', 'static_cast<long>(m_hi)', 'template argument max -> data member m_hi (any value)')]),
                                     ('D2', {'types': ['OptionWarning w']})],
@@ -23,12 +27,12 @@ def _read_number_rules(T, cls):
     return {'read_number_%s' % T: [
         ('D4', None),
         ('D8', [(r'bool read_number\(const char \*in, Option<T> &out\)', 'bool read_number_%s(const char *in, %s &out)' % (T, cls), why),
-                (r'const auto val = std::strtol', 'const long val = std::strtol', 'auto of a long initialiser'),
+                (r'const auto val = std::strtol', 'const long val = std::strtol', 'auto of a long initialiser', True),
                 (r'static_cast<T>\(', 'static_cast<%s>(' % T, why),
                 (r'const auto \*const opt = find_option\(in\)', 'const GenericOption * opt = find_option(in)', 'auto of GenericOption* (top-level const of the local dropped for rule D3)'),
                 (r'auto &sopt = \*static_cast<const Option<signed> \*>\(opt\);', 'const Option_signed &sopt = *static_cast<const Option_signed *>(opt);', 'Option<signed> -> shell'),
                 (r'auto &uopt = \*static_cast<const Option<unsigned> \*>\(opt\);', 'const Option_unsigned &uopt = *static_cast<const Option_unsigned *>(opt);', 'Option<unsigned> -> shell'),
-                (r'const auto rval = ', 'const long rval = ', 'auto of a long initialiser')]),
+                (r'const auto rval = ', 'const long rval = ', 'auto of a long initialiser', True)]),
         ('D3', None)]}
 
 
@@ -48,6 +52,7 @@ ASSUMED = ['strtol: trusted body model in opt.impl.cpp (value and end pointer of
 
 def P(name, enforce, **kw):
     kw.setdefault('unwind', 6)
+    kw.setdefault('defines', ['VALIDATE_ARG_T=%s' % VALIDATE_ARG_T.replace(' ', '_SP_')] if ' ' not in VALIDATE_ARG_T else [])
     return Proof(name, impl=IMPL, spec=SPEC, enforce=enforce, replace=ENV, rules=RULES, assumed=ASSUMED, drop_flags=['--conversion-check'],
                  note='static_cast<T>(long) is an implementation-defined conversion (not undefined): conversion check off; whether it loses information is what the postcondition decides. '
                       'strchr on the literals "-" / "~!-" is unwound 6 with unwinding assertions (complete for these literals)',
